@@ -462,7 +462,7 @@ def expr_pairing(ctx):
             ctx.ok(c, fn, entries=len(want))
 
 
-@rule("C18.expr-placeholders", props=["C18"], min_instances=3, mutants=[
+@rule("C18.expr-placeholders", props=["C18", "C12"], min_instances=3, mutants=[
     ("placeholders created from grades", ("matrixreps", "symbolic_rest = [alg.multivector(name=string.ascii_uppercase[i], keys=mv.keys()) for i, mv in enumerate(rest)]", "symbolic_rest = [alg.multivector(name=string.ascii_uppercase[i], grades=mv.grades) for i, mv in enumerate(rest)]")),
     ("placeholders paired with reversed inputs", ("matrixreps", "for smv, mv in zip(symbolic_rest, rest))))", "for smv, mv in zip(symbolic_rest, reversed(rest)))))")),
     ("all placeholders share one name", ("matrixreps", "alg.multivector(name=string.ascii_uppercase[i], keys=mv.keys()) for i, mv in enumerate(rest)]", "alg.multivector(name=string.ascii_uppercase[0], keys=mv.keys()) for i, mv in enumerate(rest)]")),
